@@ -178,13 +178,14 @@ TraceInit ==
 \* run start: first restart_block
 TraceRunStart ==
     /\ HasLine /\ Line.k = "rb" /\ phase = "init"
-    /\ LET tm == [p \in Slots |-> T0 + p * DT0]
+    /\ LET ln == Line
+           \* the first block is laid out with the step sizes the steps hold (all DT0 for a fresh controller)
+           tm == StartTimes([p \in Slots |-> At(ln.dt, p)])
            n  == NumActive(tm)
-           ln == Line
        IN /\ viol' = viol
                 \cup V(ln.nact = n, "conf.start.nact")
                 \cup V(\A p \in Slots : At(ln.time, p) = tm[p], "conf.start.time")
-                \cup V(\A p \in Slots : At(ln.dt, p) = DT0, "conf.start.dt")
+                \cup V([p \in Slots |-> At(ln.dt, p)] \in LeftOver, "conf.start.dt")
                 \cup V(\A p \in Slots : \A lv \in Levels : At(At(ln.dts, p), lv) = At(ln.dt, p), "conf.level_dt")
                 \cup V(\A i \in 1 .. Len(ln.u0) : ln.u0[i] = ln.carry, "val.start_from_u0")
                 \cup V(\A i \in 1 .. Len(ln.aliased) : ~ ln.aliased[i], "val.u0_copied")
